@@ -90,7 +90,7 @@ def base_scenario(r, want=None):
     if oc < 0.3:
         out = posixpath.join(cwd, 'bb.out')
     else:
-        o = r.choice(('out.bin', 'out/prog.bin', '/w/proj/out/abs.bin', '../w_up.bin' if cwd != '/w' else 'up.bin', './dot.bin'))
+        o = r.choice(('out.bin', 'out/prog.bin', '/w/proj/out/abs.bin', '../w_up.bin' if cwd != '/w' else 'up.bin', './dot.bin', 'fw.hex', 'FW.HEX', 'prog.bin.hex'))
         if r.random() < 0.06:
             argv += ['-o', 'overridden.bin']          # a repeated option: the last one wins
         argv += [r.choice(('-o', '--output', '--out')), o]
@@ -108,6 +108,11 @@ def base_scenario(r, want=None):
         argv += [r.choice(('--hex-offset', '--hex-offset', '--hex')), ho] if r.random() < 0.7 else ['--hex-offset=' + ho]
         opts['hex'] = ho
         hexpath = out + '.hex'
+    if hexpath is None and r.random() < 0.4:
+        # an older <output>.hex lies around although this run does not ask for one: a failing run must leave it alone too
+        stale_hex = out + '.hex'
+    else:
+        stale_hex = None
     inp = spell(main)
     if r.random() < 0.03:
         inp = spell(posixpath.dirname(main) + '/absent.asm')
@@ -127,7 +132,7 @@ def base_scenario(r, want=None):
     if cwd not in dirs:
         dirs.append(cwd)
     return {'tree': tree, 'dirs': dirs, 'cwd': cwd, 'argv': argv, 'input': posixpath.normpath(posixpath.join(cwd, inp)),
-            'paths': {'out': out, 'labels': labels, 'hex': hexpath}, 'opts': opts, 'pre': pre, 'planted': planted,
+            'paths': {'out': out, 'labels': labels, 'hex': hexpath, 'stale_hex': stale_hex}, 'opts': opts, 'pre': dict(pre, **({'stale_hex': SENT['hex']} if stale_hex else {})), 'planted': planted,
             'bad_cli': bad_cli, 'inject': None, 'fs_faults': []}
 
 
@@ -327,7 +332,7 @@ def run_scenario(scen, keep_events=False):
     outcome = x['outcome']
     opts = scen['opts']
     failed = outcome != 'ok'
-    pre_present = [k for k in ('out', 'labels', 'hex') if paths.get(k) and paths[k] in before]
+    pre_present = [k for k in ('out', 'labels', 'hex', 'stale_hex') if paths.get(k) and paths[k] in before]
     if scen.get('pre_hex'):
         res.hit('pre:output-already-identical')
     if opts['compress']:
@@ -376,7 +381,7 @@ def run_scenario(scen, keep_events=False):
             res.observe('write-phase-failure-left-partial:' + '+'.join(changed))
     elif failed:
         # a run that fails exits non-zero and leaves any previously existing output, label and hex files untouched
-        for k in ('out', 'labels', 'hex'):
+        for k in ('out', 'labels', 'hex', 'stale_hex'):
             p = paths.get(k)
             if not p:
                 continue
